@@ -192,6 +192,11 @@ pub fn mux_once(case: &Value, mut out: Option<&mut Out>) -> Option<(Sparse, u64,
     let pos = from_big(&case["pos"]);
     let mut s = Sparse::new();
     s.seek(SeekFrom::Start(pos)).unwrap();
+    // calls marked "fault" run on a stream that fails during that call (seek: the next stream call;
+    // write: after `written` more bytes); the history goes on afterwards (C17: no later call panics)
+    let s = Ctl::new(s);
+    let arm = s.arm_shared.clone();
+    let mut faulted = false;
     let cfg = mp4_config(&case["cfg"]);
     let mut allok = true;
     let r = guarded(|| Mp4Writer::write_start(s, &cfg));
@@ -237,16 +242,25 @@ pub fn mux_once(case: &Value, mut out: Option<&mut Out>) -> Option<(Sparse, u64,
                     is_sync: call["sync"].as_bool().unwrap_or(false),
                     bytes: mp4::Bytes::from(bytes),
                 };
+                let fault = call["fault"].as_str().unwrap_or("");
+                match fault {
+                    "seek" => arm.set(1),
+                    "write" => arm.set(2 + call["written"].as_u64().unwrap_or(0)),
+                    _ => {}
+                }
                 let r = guarded(|| w.write_sample(t, &smp));
+                let fired = fault != "" && arm.get() == 0;
+                arm.set(0);
+                faulted |= fired;
                 let (res, msg) = res_of(&r);
                 let valid = call["valid"].as_bool().unwrap_or(true);
                 if res != "ok" && valid {
                     allok = false;
                 }
-                let stop = res == "panic" || res == "ioerr";
+                let stop = res == "panic" || (res == "ioerr" && !fired);
                 if let Some(o) = out.as_deref_mut() {
                     o.ev(json!({"e":"write","t":t,"s":{"len":l,"h":h,"b":b,"dur":call["dur"],
-                        "cts":call["cts"],"sync":call["sync"]},"res":res,"msg":msg}));
+                        "cts":call["cts"],"sync":call["sync"]},"res":res,"msg":msg,"fault":fault,"fired":fired}));
                 }
                 if stop {
                     return None;
@@ -257,12 +271,18 @@ pub fn mux_once(case: &Value, mut out: Option<&mut Out>) -> Option<(Sparse, u64,
     }
     let r = guarded(|| w.write_end());
     let (res, msg) = res_of(&r);
-    let s = w.into_writer();
+    let s = w.into_writer().inner;
+    if faulted {
+        if let Some(o) = out.as_deref_mut() {
+            o.ev(json!({"e":"end","res":res,"msg":msg,"allok":allok,"faulted":true}));
+        }
+        return None;
+    }
     if let Some(o) = out.as_deref_mut() {
         if res == "ok" {
-            o.ev(json!({"e":"end","res":res,"img":image_of(&s, pos)}));
+            o.ev(json!({"e":"end","res":res,"img":image_of(&s, pos),"faulted":false}));
         } else {
-            o.ev(json!({"e":"end","res":res,"msg":msg,"allok":allok}));
+            o.ev(json!({"e":"end","res":res,"msg":msg,"allok":allok,"faulted":false}));
         }
     }
     if res == "ok" {
